@@ -1,5 +1,5 @@
 CONSTANTS
-  Nodes = {1, 2}
+  Nodes = {1, 2, 3}
   RootObjs <- R1
   RootPkg <- Pkg1
   RootSlots <- Slots1
@@ -10,7 +10,7 @@ CONSTANTS
   OwnerFix = TRUE
   AttachGuard = TRUE
   SaveGuard = TRUE
-  ObjSeq <- Seq2a
+  ObjSeq <- Seq3a
   Bias = FALSE
   Quiet = FALSE
 INIT Init
